@@ -9,7 +9,7 @@ import json, os, random, re, shutil, subprocess, sys, time
 MUT = os.environ.get("MUT_DIR", "/tmp/mut")
 MREPO = MUT + "/repo"
 MVERIF = MUT + "/verif"
-OUT = "/verif/.cache/mutants.jsonl"
+OUT = os.environ.get("MUT_OUT", "/verif/.cache/mutants.jsonl")
 ENV = dict(os.environ, RUST_BACKTRACE="0", CARGO_NET_OFFLINE="true", VERIF_REPO=MREPO, VERIF_SEED="1", VERIF_TIER="quick",
            VERIF_LSP_BIN=MVERIF + "/.cache/target-repo/debug/abasic-lsp", VERIF_CLI_BIN=MVERIF + "/.cache/target-repo/debug/abasic")
 ORDER = "C04 C18 C11 C08 C10 C09 C07 C03 C02 C06 C12 C14 C17 C19 C20 C15 C13 C05 C16 C01".split()
